@@ -15,6 +15,8 @@ From Coq Require Import List Arith NArith Bool Lia.
 Import ListNotations.
 Require Import RV.Lib.Bytes RV.Lib.SortedMap RV.Model.C14_Store RV.Model.C15_Stores RV.Proof.C15_Stores
                RV.Model.C19_CrashCommit RV.Proof.C19_CrashCommit.
+Require RV.Model.C17_Jmt RV.Model.C17_Smt RV.Model.C18_Store RV.Proof.C17_Update RV.Proof.C17_Compose
+        RV.Proof.C18_Store RV.Proof.C18_Lift RV.Proof.C18_Reach RV.Model.C19_Composed RV.Proof.C19_Composed RV.Props.C17.
 Open Scope N_scope.
 
 (* Any layout "one batch, then only deletions of tree nodes": every crash prefix is consistent; the
@@ -146,6 +148,116 @@ Proof.
   split; [vm_compute; discriminate|vm_compute; reflexivity].
 Qed.
 
+(* ================================================================================================ *)
+(* The commit composed with the state tree (C17) and the node store (C18): no tree hypotheses.       *)
+(* Model/C19_Composed.v: substates = the database of C17 (dbmap / apply_commit), the tree computation *)
+(* = C17's put_at_next_version (root, new logical tree, node inserts and stale parts), the node column *)
+(* family = C18's versioned store, the pruning loop as written (Node: unconditional delete; Subtree:   *)
+(* walk over the nodes stored AFTER the batch, one delete_cf per step).                               *)
+(* ================================================================================================ *)
+Module Composed.
+Import RV.Model.C17_Jmt RV.Model.C17_Smt RV.Model.C18_Store RV.Proof.C17_Update RV.Proof.C17_Compose
+       RV.Proof.C18_Store RV.Proof.C18_Lift RV.Proof.C18_Reach RV.Model.C19_Composed RV.Proof.C19_Composed.
+
+(* CConsistent st s: the recorded root is db_root (the commitment of C17_root_is_commitment /
+   C17_binding) of EXACTLY the substates held, the recorded version is the tree's, and every node
+   reachable from the root through all three tiers is stored.  For every hash function without the
+   zero output, every prefix-free key universe, every consistent store, every well-formed commit,
+   pruning on or off, every crash point k: the store found is the pre-commit store itself (k = 0)
+   or has exactly the post-commit substates, version + 1 and their root, and is CConsistent for the
+   new tree.  The root (HR of C19_commit_crash_safe) is discharged by C17 (commit_ok), completeness
+   after the batch and during pruning (HC) by C18's summary of a commit (commit_facts: every node
+   the new root reaches was inserted now or was reachable before and is hit by no stale part) and by
+   the fact that the pruning walk deletes only keys below a stale part (prune_dels_hit).
+   One side condition remains, `dels_old`: every key the pruning loop deletes has a version older
+   than the one being committed (this is what makes "all inserts first, then all deletions" — the
+   RocksDB order, different from the in-memory store's issue order — safe for nodes inserted under
+   the path of a stale subtree).  It follows from two structural facts (C19_bfs_deletes_only_old_versions)
+   and is checked on the implementation for every commit of every run (harness oracle + evaluator:
+   the version prefix of every deleted key). *)
+Theorem C19_composed_crash_safe :
+  forall (H : list N -> list N) fuel, (0 < fuel)%nat -> (forall x, H x <> ZERO_HASH) ->
+  forall US UP UE, pfree US -> ~ US [] -> pfree UP -> ~ UP [] -> pfree UE -> ~ UE [] ->
+  forall pruning st s u steps st',
+    CConsistent H fuel US UP UE st s -> ok_commit fuel US UP UE u ->
+    ccommit H fuel pruning st s u = CSteps steps st' ->
+    dels_old (c_version s + 1) steps ->
+    forall k, (k <= length steps)%nat ->
+      let sk := ccrash k steps s in
+      (k = 0%nat -> sk = s) /\
+      ((1 <= k)%nat ->
+         c_db sk = apply_commit (c_db s) u /\ c_version sk = c_version s + 1 /\
+         c_root sk = db_root H fuel (apply_commit (c_db s) u) /\ CConsistent H fuel US UP UE st' sk).
+Proof.
+  intros H fuel Hf HZ US UP UE PS S0 PP P0 PE E0.
+  exact (composed_crash_safe H fuel Hf HZ US UP UE PS S0 PP P0 PE E0).
+Qed.
+
+(* an IO error reported by the k-th RocksDB write (unwrap / expect panics before the write took effect)
+   leaves exactly the crash state k, hence the same guarantee *)
+Theorem C19_io_error_is_a_crash : forall k steps s, cio_panic k steps s = ccrash k steps s.
+Proof. reflexivity. Qed.
+
+(* the pruning loop as written deletes only keys hit by a stale part of the commit ... *)
+Theorem C19_pruning_deletes_only_stale : forall parts s k,
+  In k (prune_dels parts s) -> exists part, In part parts /\ hits part k.
+Proof. exact prune_dels_hit. Qed.
+(* ... and only keys of older versions, when every stored node refers to children of its own or an
+   older version and the stale parts name old versions *)
+Theorem C19_bfs_deletes_only_old_versions :
+  forall (H : list N -> list N) fuel, (0 < fuel)%nat -> forall pruning st s u steps st' root ops,
+    ccommit H fuel pruning st s u = CSteps steps st' ->
+    put_at_next_version H fuel st u = Ok (root, st', ops) ->
+    child_mono (ins_all ops (c_nodes s)) ->
+    Forall (fun part => part_ver part <= c_version s) (stale_parts_of ops) ->
+    dels_old (c_version s + 1) steps.
+Proof. exact dels_old_from_structure. Qed.
+
+Theorem C19_empty_store_consistent : forall H fuel US UP UE,
+  CConsistent H fuel US UP UE None (mkC [] None [] []).
+Proof. exact empty_consistent. Qed.
+
+(* non-vacuity: the two commits of C17_nonvacuous_db (two entities; then a delete, an overwrite and a
+   partition Reset to empty) on the empty store with pruning: all hypotheses of
+   C19_composed_crash_safe hold for both commits (the second one starts from the store the first one
+   leaves, consistent BY the theorem), the second commit has pruning deletions after its batch *)
+Example C19_composed_nonvacuous :
+  let H := fun l : list N => 1 :: l in
+  let US := fun k : list N => length k = 2%nat in
+  let UE := fun k : list N => length k = 4%nat in
+  let u1 : db_updates := [([1;2;3;4], [([0;6], Delta [([1;2], Some [30]); ([1;3], Some [31])])]);
+                          ([1;2;3;5], [([0;6], Delta [([1;2], Some [5])]); ([0;7], Delta [])])] in
+  let u2 : db_updates := [([1;2;3;4], [([0;6], Delta [([1;2], None); ([1;3], Some [32])])]);
+                          ([1;2;3;5], [([0;6], Reset [])])] in
+  let s0 := mkC [] None [] [] in
+  exists steps1 st1 steps2 st2,
+    ccommit H 9 true None s0 u1 = CSteps steps1 st1 /\ dels_old 1 steps1 /\
+    ok_commit 9 US US UE u1 /\ ok_commit 9 US US UE u2 /\
+    CConsistent H 9 US US UE st1 (crun steps1 s0) /\
+    ccommit H 9 true st1 (crun steps1 s0) u2 = CSteps steps2 st2 /\ dels_old 2 steps2 /\
+    (3 <= length steps2)%nat /\
+    c_db (crun steps2 (crun steps1 s0)) = [([1;2;3;4], [([0;6], [([1;3], [32])])])].
+Proof.
+  cbv zeta. destruct RV.Props.C17.C17_nonvacuous_db as (HZ & OK & _). cbv zeta in HZ, OK.
+  inversion OK as [|x l OK1 OK']; subst. inversion OK' as [|x l OK2 _]; subst.
+  eexists. eexists. eexists. eexists.
+  split; [vm_compute; reflexivity|]. split; [apply dels_oldb_spec; vm_compute; reflexivity|].
+  split; [exact OK1|]. split; [exact OK2|].
+  split.
+  - match goal with |- CConsistent ?H ?f ?US ?UP ?UE ?st1 (crun ?steps1 ?s0) =>
+      destruct (composed_crash_safe H f (ltac:(repeat constructor)) HZ US UP UE
+                  (pfree_fixed_length 2) (ltac:(intro Q; discriminate Q)) (pfree_fixed_length 2) (ltac:(intro Q; discriminate Q))
+                  (pfree_fixed_length 4) (ltac:(intro Q; discriminate Q)) true None s0 _ steps1 st1
+                  (empty_consistent H f US UP UE) OK1 (ltac:(vm_compute; reflexivity))
+                  (ltac:(apply dels_oldb_spec; vm_compute; reflexivity)) (length steps1) (le_n _)) as [_ T];
+      destruct (T (ltac:(apply Nat.leb_le; vm_compute; reflexivity))) as (_ & _ & _ & C);
+      unfold ccrash in C; rewrite firstn_all in C; exact C
+    end.
+  - split; [vm_compute; reflexivity|]. split; [apply dels_oldb_spec; vm_compute; reflexivity|].
+    split; [apply Nat.leb_le; vm_compute; reflexivity|vm_compute; reflexivity].
+Qed.
+End Composed.
+
 Print Assumptions C19_atomic_layout_safe.
 Print Assumptions C19_commit_crash_safe.
 Print Assumptions C19_commit_crash_safe_tree.
@@ -155,3 +267,9 @@ Print Assumptions C19_post_substates_are_the_updates.
 Print Assumptions C19_pre_fix_layout_refuted.
 Print Assumptions C19_prefix_states_are_crash_states.
 Print Assumptions C19_nonvacuous.
+Print Assumptions Composed.C19_composed_crash_safe.
+Print Assumptions Composed.C19_io_error_is_a_crash.
+Print Assumptions Composed.C19_pruning_deletes_only_stale.
+Print Assumptions Composed.C19_bfs_deletes_only_old_versions.
+Print Assumptions Composed.C19_empty_store_consistent.
+Print Assumptions Composed.C19_composed_nonvacuous.
